@@ -30,6 +30,8 @@ def val(a):
         return None
     if a == 201:
         return (1,)
+    if 300 <= a < 400:
+        return [a - 299]            # an unhashable object
     raise ValueError(a)
 
 
@@ -42,6 +44,8 @@ def atom(v):
         return 200
     if type(v) is tuple and v == (1,):
         return 201
+    if type(v) is list and len(v) == 1 and type(v[0]) is int:
+        return 299 + v[0]
     return 999
 
 
